@@ -240,6 +240,29 @@ CLAIMS = {
                      'finite abstract evaluation + regex literal applied to '
                      'a witness set + who-may-call (ast)',
     },
+    'C11': {
+        'text': 'The send gate of send_packet is evaluated as a complete '
+                'decision table (finite abstract interpretation over packet '
+                'type classes × kex complete × auth in progress × auth '
+                'complete × re-key due by bytes/time, ~2 000 states): during '
+                'an exchange only types <= 49 except DEBUG / SERVICE_* are '
+                'emitted, everything else is queued exactly once, a due '
+                're-key (only with auth ∧ kex complete) sends KEXINIT first '
+                'and queues the trigger behind it. Plus: _deferred_packets is '
+                'a FIFO (operation whitelist), flushed by swap-then-replay of '
+                'every element, only after NEWKEYS was sent, the send cipher '
+                'replaced and _kex_complete set; receive keys are staged in '
+                'send_newkeys and installed + cleared only in '
+                '_process_newkeys; the session id is write-once; the six '
+                'compute_key calls take (k, h, distinct letter, session id); '
+                'who-may-write for the KEXINIT-sent flag and the '
+                'simultaneous-start table of _process_kexinit.',
+        'note': TB + 'not decided: no loss/duplication of channel data across '
+                'a re-key under every timing; numeric freshness of keys.',
+        'technique': 'finite-domain abstract interpretation (decision table) '
+                     '+ field-protocol (FIFO) whitelist + must-pass-through '
+                     'ordering + who-may-write (ast)',
+    },
 }
 
 PENDING = 'check not built yet in this session (planned, see DESIGN.md section 5)'
